@@ -769,6 +769,57 @@ fn oracle(case: &Case, outs: &[CallOut]) -> Vec<(&'static str, String)> {
             }
         }
     }
+    // ---- whole-trace protocol order (independent restatement, cf. `requiredBefore` in the
+    //      Lean spec): every attempt of a protocol step comes DIRECTLY after its successful
+    //      predecessors, across call boundaries too
+    let whole: Vec<(Sub, Out)> = outs.iter().flat_map(|o| o.seg.iter().copied()).collect();
+    for (i, e) in whole.iter().enumerate() {
+        let ok = |s: Sub| (s, Out::Ok);
+        let req: Vec<(Sub, Out)> = match e.0 {
+            Sub::LockSet(1) => vec![ok(Sub::Enable)],
+            Sub::AcqStart => vec![ok(Sub::Enable), ok(Sub::LockSet(1))],
+            Sub::LoopStart => vec![ok(Sub::Enable), ok(Sub::LockSet(1)), ok(Sub::AcqStart)],
+            Sub::AcqStop => vec![ok(Sub::LoopStop)],
+            Sub::LockSet(0) => vec![ok(Sub::LoopStop), ok(Sub::AcqStop)],
+            Sub::Disable => vec![ok(Sub::LoopStop), ok(Sub::AcqStop), ok(Sub::LockSet(0))],
+            Sub::LockSet(_) | Sub::Other => {
+                bad.push(("global_order", format!("unexpected device access #{i} {}", tok(e))));
+                vec![]
+            }
+            _ => vec![],
+        };
+        if i < req.len() || whole[i - req.len()..i] != req[..] {
+            let clause = if matches!(e.0, Sub::LockSet(1) | Sub::AcqStart | Sub::LoopStart) { "start_order" } else { "stop_order" };
+            bad.push((clause, format!("effect #{i} {} is not directly preceded by {:?}", tok(e), req.iter().map(tok).collect::<Vec<_>>())));
+        }
+    }
+    // ---- the device-visible state is the replay of the trace (sanity of the fakes themselves)
+    if let Some(last) = outs.last() {
+        let (mut en, mut lock, mut acq, mut co, mut so, mut loops) = (false, 0u32, false, false, false, 0i64);
+        for e in whole.iter().filter(|e| e.1 == Out::Ok) {
+            match e.0 {
+                Sub::Enable => en = true,
+                Sub::Disable => en = false,
+                Sub::LockSet(v) => lock = v,
+                Sub::AcqStart => acq = true,
+                Sub::AcqStop => acq = false,
+                Sub::CtrlOpen => co = true,
+                Sub::CtrlClose => co = false,
+                Sub::StrmOpen => so = true,
+                Sub::StrmClose => so = false,
+                Sub::LoopStart => loops += 1,
+                Sub::LoopStop => loops -= 1,
+                _ => {}
+            }
+        }
+        if case.stop_fail_kills {
+            loops -= whole.iter().filter(|e| *e == &(Sub::LoopStop, Out::Fault)).count() as i64;
+        }
+        let a = &last.after;
+        if (a.enabled, a.lock, a.acquiring, a.ctrl_open, a.strm_open, a.loops as i64) != (en, lock, acq, co, so, loops) {
+            bad.push(("trace_replay", format!("final state {} is not the replay of the trace", a.show())));
+        }
+    }
     bad
 }
 
@@ -912,7 +963,7 @@ fn main() {
     let base5 = [Op::Open, Op::Load, Op::Start(3), Op::Stop, Op::Close];
 
     // (1) main exhaustive sweep: complete description, single faults
-    let d_main = if thorough { 6 } else { 5 };
+    let d_main = if thorough { 7 } else { 5 };
     let mut seqs: Vec<Vec<Op>> = vec![];
     sequences(&base6, d_main, &mut |s| seqs.push(s.to_vec()));
     for s in &seqs {
